@@ -1900,8 +1900,9 @@ sexp sexp_compare (sexp ctx, sexp a, sexp b) {
 #endif
       r = sexp_type_exception(ctx, NULL, SEXP_NUMBER, a);
       break;
-    case SEXP_NUM_FIX_FIX:
-      r = sexp_make_fixnum(sexp_unbox_fixnum(a) - sexp_unbox_fixnum(b));
+    case SEXP_NUM_FIX_FIX:        /* not a - b, which can overflow a fixnum */
+      r = sexp_make_fixnum((sexp_unbox_fixnum(a) > sexp_unbox_fixnum(b))
+                           - (sexp_unbox_fixnum(a) < sexp_unbox_fixnum(b)));
       break;
     case SEXP_NUM_FIX_FLO:
       if (isinf(sexp_flonum_value(b))) {
